@@ -4,8 +4,11 @@
           contains the same number of multiples of `range` wherever it starts).
   Part B: the byte stream: little-endian values, `Standard`, slice fill = element-wise `gen`.
   Part C: the uniform sampler: no panic, closed forms of the zones, range membership.
+  Part D: the model computes exactly what `Spec/Random.lean` (the law the driver prints as the
+          spec answer) says.
 -/
 import Bnum.Model.Random
+import Bnum.Spec.Random
 import Bnum.Lemmas.Basic
 import Bnum.Lemmas.Digit
 namespace Bnum.Rand
@@ -126,6 +129,7 @@ theorem accept_count {m range zone y : Nat} (hr : 0 < range) (hz : zone < m)
 
 /-- every entry of the scripted stream is a byte -/
 def StreamOK (s : Stream) : Prop := ∀ b ∈ s, b < 256
+instance (s : Stream) : Decidable (StreamOK s) := by unfold StreamOK; exact inferInstance
 
 theorem StreamOK.take {s : Stream} (h : StreamOK s) (k : Nat) : StreamOK (s.take k) :=
   fun b hb => h b (List.mem_of_mem_take hb)
@@ -244,17 +248,6 @@ theorem genVal_surjective (k n v : Nat) (hv : v < M (8 * k) n) :
   rw [genVal_eq (by omega), List.take_of_length_le (by omega), List.drop_of_length_le (by omega),
     leValue_ofNat, Nat.mod_eq_of_lt]
   rw [M_eq_pow, B_eq_256, ← Nat.pow_mul, Nat.mul_comm k n] at hv; exact hv
-
-/-- filling element after element -/
-def genMany (w n : Nat) : Nat → Stream → Option (List (List Nat) × Stream)
-  | 0, s => some ([], s)
-  | len + 1, s =>
-    match UI.gen w n s with
-    | none => none
-    | some (d, r) =>
-      match genMany w n len r with
-      | none => none
-      | some (ds, r') => some (d :: ds, r')
 
 theorem fillSlice_eq_core (w n len : Nat) (s : Stream) :
     fillSlice w n len s =
@@ -888,5 +881,377 @@ theorem uniformNewSample_dbg {signed : Bool} {w n low high : Nat} {s : Stream} (
     exact this
   · simp only [uniformNewSample, new_panic hlt, Outcome.bind_panic]
 
+
+/-! ## Part D — the model computes what `Spec/Random.lean` says -/
+
+theorem spec_leVal (bs : List Nat) : Spec.Random.leVal bs = leValue bs := by
+  induction bs with
+  | nil => rfl
+  | cons b bs ih => simp only [Spec.Random.leVal, List.foldr, leValue] at *; rw [ih]
+
+theorem spec_words_lt {k fuel : Nat} {s : Stream} (h : s.length < k) :
+    Spec.Random.words k (fuel + 1) s = [] := by
+  simp [Spec.Random.words]; omega
+theorem spec_words_ge {k fuel : Nat} {s : Stream} (h : k ≤ s.length) :
+    Spec.Random.words k (fuel + 1) s =
+      leValue (s.take k) :: Spec.Random.words k fuel (s.drop k) := by
+  simp [Spec.Random.words, h, spec_leVal]
+
+theorem firstAccepted_shift (m range zone : Nat) (ws : List Nat) (i : Nat) :
+    Spec.Random.firstAccepted m range zone ws i =
+      (Spec.Random.firstAccepted m range zone ws 0).map (fun p => (p.1, p.2 + i)) := by
+  induction ws generalizing i with
+  | nil => rfl
+  | cons v vs ih =>
+    simp only [Spec.Random.firstAccepted]
+    split
+    · simp [Nat.add_comm]
+    · rw [ih (i + 1), ih (0 + 1)]
+      cases Spec.Random.firstAccepted m range zone vs 0 <;> simp [Nat.add_comm, Nat.add_left_comm]
+
+/-- the rejection loop = "first accepted word" of the Spec -/
+theorem rejectLoop_eq_spec {k n low range zone fuel : Nat} {s : Stream} :
+    rejectLoop (8 * k) n low range zone fuel s =
+      (Spec.Random.firstAccepted (M (8 * k) n) range zone (Spec.Random.words (n * k) fuel s) 0).map
+        (fun p => (wrappingAdd (M (8 * k) n) low p.1, s.drop (p.2 * (n * k)))) := by
+  induction fuel generalizing s with
+  | zero => rfl
+  | succ fuel ih =>
+    rw [rejectLoop_succ]
+    by_cases hl : n * k ≤ s.length
+    · rw [genVal_eq hl, spec_words_ge hl]
+      simp only [Spec.Random.firstAccepted]
+      split
+      · simp
+      · rw [ih, firstAccepted_shift _ _ _ _ (0 + 1)]
+        cases Spec.Random.firstAccepted (M (8 * k) n) range zone
+          (Spec.Random.words (n * k) fuel (List.drop (n * k) s)) 0 with
+        | none => rfl
+        | some p => simp [List.drop_drop, Nat.succ_mul, Nat.add_comm]
+    · rw [genVal_none (by omega), spec_words_lt (by omega)]; rfl
+
+theorem spec_words_length (k fuel : Nat) (s : Stream) :
+    (Spec.Random.words k fuel s).length * k ≤ s.length := by
+  induction fuel generalizing s with
+  | zero => simp [Spec.Random.words]
+  | succ fuel ih =>
+    by_cases hl : k ≤ s.length
+    · rw [spec_words_ge hl, List.length_cons, Nat.succ_mul]
+      have := ih (s.drop k); rw [List.length_drop] at this; omega
+    · rw [spec_words_lt (by omega)]; simp
+
+theorem firstAccepted_le {m range zone : Nat} {ws : List Nat} {h c : Nat}
+    (hf : Spec.Random.firstAccepted m range zone ws 0 = some (h, c)) :
+    1 ≤ c ∧ c ≤ ws.length ∧ ∃ v ∈ ws, (v * range) % m ≤ zone ∧ h = (v * range) / m := by
+  induction ws generalizing h c with
+  | nil => cases hf
+  | cons v vs ih =>
+    simp only [Spec.Random.firstAccepted] at hf
+    split at hf
+    · simp only [Option.some.injEq, Prod.mk.injEq] at hf
+      refine ⟨by omega, by simp; omega, v, by simp, ‹_›, hf.1.symm⟩
+    · rw [firstAccepted_shift] at hf
+      cases hf' : Spec.Random.firstAccepted m range zone vs 0 with
+      | none => rw [hf'] at hf; cases hf
+      | some p =>
+        rw [hf'] at hf
+        simp only [Option.map_some, Option.some.injEq, Prod.mk.injEq] at hf
+        obtain ⟨a, b, v', hv', hacc, hh⟩ := ih (h := p.1) (c := p.2) hf'
+        refine ⟨by omega, by simp; omega, v', by simp [hv'], hacc, by rw [← hf.1]; exact hh⟩
+
+theorem spec_words_lt_m {k n fuel : Nat} {s : Stream} (hok : StreamOK s) :
+    ∀ v ∈ Spec.Random.words (n * k) fuel s, v < M (8 * k) n := by
+  induction fuel generalizing s with
+  | zero => intro v hv; cases hv
+  | succ fuel ih =>
+    intro v hv
+    by_cases hl : n * k ≤ s.length
+    · rw [spec_words_ge hl, List.mem_cons] at hv
+      rcases hv with rfl | hv
+      · have := leValue_lt (hok.take (n * k))
+        rw [List.length_take, Nat.min_eq_left hl] at this
+        rw [M_eq_pow, B_eq_256, ← Nat.pow_mul, Nat.mul_comm k n]; exact this
+      · exact ih (hok.drop _) v hv
+    · rw [spec_words_lt (by omega)] at hv; cases hv
+
+
+theorem spec_zoneExact (m range : Nat) : Spec.Random.zoneExact m range = zoneExact m range := by
+  unfold Spec.Random.zoneExact zoneExact; omega
+
+theorem normalize_spec (m : Nat) : ∀ (fuel r : Nat), r < m →
+    ∃ j, j ≤ fuel ∧ Spec.Random.normalize m fuel r = r * 2 ^ j ∧ r * 2 ^ j < m ∧
+      (m ≤ 2 * (r * 2 ^ j) ∨ j = fuel)
+  | 0, r, hr => ⟨0, Nat.le_refl 0, by simp [Spec.Random.normalize], by simpa using hr, Or.inr rfl⟩
+  | fuel + 1, r, hr => by
+    rw [Spec.Random.normalize]
+    split
+    · obtain ⟨j, a, b, c, d⟩ := normalize_spec m fuel (2 * r) ‹_›
+      refine ⟨j + 1, by omega, ?_, ?_, ?_⟩
+      · rw [b, Nat.pow_succ]; ring
+      · rw [Nat.pow_succ]; rw [show r * (2 ^ j * 2) = 2 * r * 2 ^ j by ring]; exact c
+      · rw [Nat.pow_succ, show r * (2 ^ j * 2) = 2 * r * 2 ^ j by ring]; omega
+    · exact ⟨0, by omega, by simp, by simpa using hr, Or.inl (by simp; omega)⟩
+
+theorem pow2_window_unique {r m a b : Nat}
+    (ha : r * 2 ^ a < m) (ha' : m ≤ 2 * (r * 2 ^ a)) (hb : r * 2 ^ b < m) (hb' : m ≤ 2 * (r * 2 ^ b)) :
+    a = b := by
+  have key : ∀ {a b : Nat}, a < b → r * 2 ^ a < m → m ≤ 2 * (r * 2 ^ a) → r * 2 ^ b < m → False := by
+    intro a b hab h1 h2 h3
+    have : 2 ^ (a + 1) ≤ 2 ^ b := Nat.pow_le_pow_right (by decide) hab
+    have := Nat.mul_le_mul_left r this
+    rw [Nat.pow_succ] at this
+    have e : r * (2 ^ a * 2) = 2 * (r * 2 ^ a) := by ring
+    omega
+  rcases Nat.lt_trichotomy a b with h | h | h
+  · exact (key h ha ha' hb).elim
+  · exact h
+  · exact (key h hb hb' ha).elim
+
+theorem spec_zonePow2 {W range : Nat} (hr : range ≠ 0) (hrm : range < 2 ^ W) :
+    Spec.Random.zonePow2 W (2 ^ W) range = zonePow2 W range := by
+  obtain ⟨j, a, b, c, d⟩ := normalize_spec (2 ^ W) W range hrm
+  obtain ⟨p, q, _, _⟩ := zonePow2_spec hr hrm
+  have hd : 2 ^ W ≤ 2 * (range * 2 ^ j) := by
+    rcases d with d | d
+    · exact d
+    · subst d
+      have : 1 * 2 ^ j ≤ range * 2 ^ j := Nat.mul_le_mul_right _ (Nat.pos_of_ne_zero hr)
+      omega
+  have := pow2_window_unique c hd p q
+  unfold Spec.Random.zonePow2 zonePow2
+  rw [b, this]
+
+theorem spec_zoneSingle {W range : Nat} (hr : range ≠ 0) (hrm : range < 2 ^ W) :
+    Spec.Random.zoneSingle W (2 ^ W) range = zoneSingle W range := by
+  unfold Spec.Random.zoneSingle zoneSingle
+  split
+  · exact spec_zoneExact _ _
+  · exact spec_zonePow2 hr hrm
+
+/-- `range = 0` happens exactly for the full range -/
+theorem rangeSize_full {signed : Bool} {m low high : Nat} (hm : m = 2 * (m / 2))
+    (hl : low < m) (hh : high < m) (hle : val signed m low ≤ val signed m high)
+    (h0 : rangeOf m low high = 0) :
+    Spec.Random.rangeSize (val signed m low) (val signed m high) = m := by
+  unfold Spec.Random.rangeSize
+  unfold rangeOf wrappingAdd wrappingSub at *
+  rw [mod_ite (x := high + m - low) (by omega)] at *
+  rw [mod_ite (x := _ + 1) (by split_ifs <;> omega)] at *
+  cases signed
+  · simp only [val, Bool.false_eq_true, if_false] at *
+    split_ifs at * <;> omega
+  · simp only [val, if_true] at *
+    unfold toInt at *
+    split_ifs at * <;> omega
+
+theorem rangeSize_eq {signed : Bool} {m low high : Nat} (hm : m = 2 * (m / 2)) (hm2 : 2 ≤ m)
+    (hl : low < m) (hh : high < m) (hle : val signed m low ≤ val signed m high)
+    (h0 : rangeOf m low high ≠ 0) :
+    Spec.Random.rangeSize (val signed m low) (val signed m high) = rangeOf m low high := by
+  have := (offset_in_range (hi := 0) hm hm2 hl hh hle h0 (Nat.pos_of_ne_zero h0)).1
+  unfold Spec.Random.rangeSize; omega
+
+
+/-- a draw as the Spec reports it: (value, number of bytes consumed) -/
+def drawView (signed : Bool) (m : Nat) (s : Stream) (d : Draw) : Option (Int × Nat) :=
+  d.map (fun p => (val signed m p.1, s.length - p.2.length))
+
+/-- MODEL = SPEC for one draw on `[low, high]` with the zone `zone` -/
+theorem draw_eq_spec {signed : Bool} {k n low high zone : Nat} {zone' : Nat → Nat} {s : Stream}
+    (hW : 1 ≤ 8 * k * n) (hok : StreamOK s)
+    (hl : low < M (8 * k) n) (hh : high < M (8 * k) n)
+    (hle : val signed (M (8 * k) n) low ≤ val signed (M (8 * k) n) high)
+    (hz : rangeOf (M (8 * k) n) low high ≠ 0 → zone' (rangeOf (M (8 * k) n) low high) = zone) :
+    drawView signed (M (8 * k) n) s
+      (if rangeOf (M (8 * k) n) low high = 0 then genVal (8 * k) n s
+       else rejectLoop (8 * k) n low (rangeOf (M (8 * k) n) low high) zone (s.length + 1) s) =
+    Spec.Random.sampleInclusive signed (M (8 * k) n) (n * k) zone'
+      (val signed (M (8 * k) n) low) (val signed (M (8 * k) n) high) s := by
+  have hm := M_even' hW
+  have hm2 := M_ge_two hW
+  unfold Spec.Random.sampleInclusive
+  by_cases h0 : rangeOf (M (8 * k) n) low high = 0
+  · rw [if_pos h0]
+    simp only [rangeSize_full hm hl hh hle h0, if_true]
+    by_cases hlen : n * k ≤ s.length
+    · rw [genVal_eq hlen, spec_words_ge hlen]
+      simp only [drawView, Option.map_some, List.length_drop, Spec.Random.wordValue, val]
+      congr 3; omega
+    · rw [genVal_none (by omega), spec_words_lt (by omega)]; rfl
+  · rw [if_neg h0]
+    have hne : rangeOf (M (8 * k) n) low high ≠ M (8 * k) n :=
+      Nat.ne_of_lt (rangeOf_lt (by omega))
+    simp only [rangeSize_eq hm hm2 hl hh hle h0, if_neg hne, hz h0]
+    rw [rejectLoop_eq_spec]
+    cases hf : Spec.Random.firstAccepted (M (8 * k) n) (rangeOf (M (8 * k) n) low high) zone
+      (Spec.Random.words (n * k) (s.length + 1) s) 0 with
+    | none => rfl
+    | some p =>
+      obtain ⟨h, c⟩ := p
+      obtain ⟨_, hc, v, hv, _, hh'⟩ := firstAccepted_le hf
+      have hvm := spec_words_lt_m (k := k) (n := n) hok v hv
+      have hhi := hi_lt_range h0 hvm
+      rw [← hh'] at hhi
+      obtain ⟨_, _, c3⟩ := offset_in_range hm hm2 hl hh hle h0 hhi
+      have hwl := spec_words_length (n * k) (s.length + 1) s
+      have : c * (n * k) ≤ s.length :=
+        Nat.le_trans (Nat.mul_le_mul_right _ hc) hwl
+      simp only [drawView, Option.map_some, List.length_drop, c3]
+      congr 3; omega
+
+
+theorem sampleSingleInclusive_eq_spec {signed dbg : Bool} {k n low high : Nat} {s : Stream}
+    (hW : 1 ≤ 8 * k * n) (hok : StreamOK s) (hl : low < M (8 * k) n) (hh : high < M (8 * k) n)
+    (hle : val signed (M (8 * k) n) low ≤ val signed (M (8 * k) n) high) :
+    ∃ d, sampleSingleInclusive signed dbg (8 * k) n low high s = .ok d ∧
+      drawView signed (M (8 * k) n) s d =
+        Spec.Random.sampleInclusive signed (M (8 * k) n) (n * k)
+          (Spec.Random.zoneSingle (8 * k * n) (M (8 * k) n))
+          (val signed (M (8 * k) n) low) (val signed (M (8 * k) n) high) s := by
+  refine ⟨_, sampleSingleInclusive_eq hW (val_le_iff.mpr hle), ?_⟩
+  apply draw_eq_spec hW hok hl hh hle
+  intro h0
+  have hr := rangeOf_lt (low := low) (high := high) (M_pos (8 * k) n)
+  rw [M_eq_two_pow] at *
+  exact spec_zoneSingle h0 hr
+
+theorem uniformNewInclusiveSample_eq_spec {signed dbg : Bool} {k n low high : Nat} {s : Stream}
+    (hW : 1 ≤ 8 * k * n) (hok : StreamOK s) (hl : low < M (8 * k) n) (hh : high < M (8 * k) n)
+    (hle : val signed (M (8 * k) n) low ≤ val signed (M (8 * k) n) high) :
+    ∃ d, uniformNewInclusiveSample signed dbg (8 * k) n low high s = .ok d ∧
+      drawView signed (M (8 * k) n) s d =
+        Spec.Random.sampleInclusive signed (M (8 * k) n) (n * k)
+          (Spec.Random.zoneExact (M (8 * k) n))
+          (val signed (M (8 * k) n) low) (val signed (M (8 * k) n) high) s := by
+  refine ⟨_, uniformNewInclusiveSample_eq hW (val_le_iff.mpr hle), ?_⟩
+  exact draw_eq_spec hW hok hl hh hle (fun _ => spec_zoneExact _ _)
+
+theorem sampleSingle_eq_spec {signed dbg : Bool} {k n low high : Nat} {s : Stream}
+    (hW : 2 ≤ 8 * k * n) (hok : StreamOK s) (hl : low < M (8 * k) n) (hh : high < M (8 * k) n)
+    (hlt : val signed (M (8 * k) n) low < val signed (M (8 * k) n) high) :
+    ∃ d, sampleSingle signed dbg (8 * k) n low high s = .ok d ∧
+      drawView signed (M (8 * k) n) s d =
+        Spec.Random.sampleInclusive signed (M (8 * k) n) (n * k)
+          (Spec.Random.zoneSingle (8 * k * n) (M (8 * k) n))
+          (val signed (M (8 * k) n) low) (val signed (M (8 * k) n) high - 1) s := by
+  have h4 : 4 ≤ M (8 * k) n := by
+    have := Nat.pow_le_pow_right (n := 2) (by decide) hW; simpa [M] using this
+  have hlt' := val_lt_iff.mpr hlt
+  obtain ⟨_, b, c, d⟩ := subOne_eq (dbg := dbg) (M_even' (by omega)) h4 hl hh hlt'
+  rw [sampleSingle_eq hW hl hh hlt', ← c]
+  exact sampleSingleInclusive_eq_spec (by omega) hok hl b (val_le_iff.mp d)
+
+theorem uniformNewSample_eq_spec {signed dbg : Bool} {k n low high : Nat} {s : Stream}
+    (hW : 2 ≤ 8 * k * n) (hok : StreamOK s) (hl : low < M (8 * k) n) (hh : high < M (8 * k) n)
+    (hlt : val signed (M (8 * k) n) low < val signed (M (8 * k) n) high) :
+    ∃ d, uniformNewSample signed dbg (8 * k) n low high s = .ok d ∧
+      drawView signed (M (8 * k) n) s d =
+        Spec.Random.sampleInclusive signed (M (8 * k) n) (n * k)
+          (Spec.Random.zoneExact (M (8 * k) n))
+          (val signed (M (8 * k) n) low) (val signed (M (8 * k) n) high - 1) s := by
+  have h4 : 4 ≤ M (8 * k) n := by
+    have := Nat.pow_le_pow_right (n := 2) (by decide) hW; simpa [M] using this
+  have hlt' := val_lt_iff.mpr hlt
+  obtain ⟨_, b, c, d⟩ := subOne_eq (dbg := dbg) (M_even' (by omega)) h4 hl hh hlt'
+  have e : uniformNewSample signed dbg (8 * k) n low high s =
+      uniformNewInclusiveSample signed dbg (8 * k) n low (wrappingSub (M (8 * k) n) high 1) s := by
+    rw [uniformNewSample, uniformNewInclusiveSample, new_eq hW hl hh hlt']
+  rw [e, ← c]
+  exact uniformNewInclusiveSample_eq_spec (by omega) hok hl b (val_le_iff.mp d)
+
+/-- `Standard` = the Spec's first word -/
+theorem standard_eq_spec {k n : Nat} {s : Stream} :
+    (genVal (8 * k) n s).map (fun p => (p.1, s.length - p.2.length)) =
+      Spec.Random.standard (n * k) s := by
+  unfold Spec.Random.standard
+  by_cases hlen : n * k ≤ s.length
+  · rw [genVal_eq hlen, spec_words_ge hlen]
+    simp only [Option.map_some, List.length_drop]
+    congr 2; omega
+  · rw [genVal_none (by omega), spec_words_lt (by omega)]; rfl
+
+theorem spec_words_take (k : Nat) : ∀ (len fuel : Nat) (s : Stream), len ≤ fuel →
+    (Spec.Random.words k fuel s).take len = Spec.Random.words k len s
+  | 0, _, _, _ => by simp [Spec.Random.words]
+  | len + 1, 0, _, h => by omega
+  | len + 1, fuel + 1, s, h => by
+    by_cases hl : k ≤ s.length
+    · rw [spec_words_ge hl, spec_words_ge hl, List.take_succ_cons,
+        spec_words_take k len fuel _ (by omega)]
+    · rw [spec_words_lt (by omega), spec_words_lt (by omega)]; rfl
+
+theorem genMany_spec {k n : Nat} (hnk : 1 ≤ n * k) : ∀ (len : Nat) (s : Stream),
+    (len * (n * k) ≤ s.length → ∃ ds, genMany (8 * k) n len s = some (ds, s.drop (len * (n * k))) ∧
+        ds.map (U (8 * k)) = Spec.Random.words (n * k) len s ∧
+        (Spec.Random.words (n * k) len s).length = len) ∧
+    (s.length < len * (n * k) → genMany (8 * k) n len s = none ∧
+        (Spec.Random.words (n * k) len s).length < len)
+  | 0, s => ⟨fun _ => ⟨[], by simp [genMany], by simp [Spec.Random.words], by simp [Spec.Random.words]⟩,
+             fun h => by omega⟩
+  | len + 1, s => by
+    rw [Nat.succ_mul]
+    by_cases hl : n * k ≤ s.length
+    · obtain ⟨ih1, ih2⟩ := genMany_spec hnk len (s.drop (n * k))
+      rw [List.length_drop] at ih1 ih2
+      rw [genMany, gen_eq hl, spec_words_ge hl]
+      constructor
+      · intro h
+        obtain ⟨ds, a, b, c⟩ := ih1 (by omega)
+        refine ⟨_ :: ds, by simp only [a, List.drop_drop]; congr 3; omega, ?_, by simp [c]⟩
+        rw [List.map_cons, b, U_digitsOfBytes (by rw [List.length_take]; omega), List.take_take,
+          Nat.min_self]
+      · intro h
+        obtain ⟨a, b⟩ := ih2 (by omega)
+        exact ⟨by simp only [a], by simp; omega⟩
+    · constructor
+      · intro h; omega
+      · intro _
+        rw [genMany, gen_none (by omega), spec_words_lt (by omega)]
+        exact ⟨rfl, by simp⟩
+
+/-- slice fill = the Spec's first `len` words -/
+theorem fillSlice_eq_spec {k n len : Nat} {s : Stream} (hnk : 1 ≤ n * k) :
+    (fillSlice (8 * k) n len s).map (fun p => (p.1.map (U (8 * k)), s.length - p.2.length)) =
+      Spec.Random.fill (n * k) len s := by
+  rw [fillSlice_eq_genMany]
+  unfold Spec.Random.fill
+  obtain ⟨h1, h2⟩ := genMany_spec hnk len s
+  have hwl := spec_words_length (n * k) len s
+  by_cases hl : len * (n * k) ≤ s.length
+  · obtain ⟨ds, a, b, c⟩ := h1 hl
+    have : len ≤ s.length + 1 := by
+      have : len * 1 ≤ len * (n * k) := Nat.mul_le_mul_left _ hnk
+      omega
+    simp only [spec_words_take _ _ _ _ this, c, if_true, a, Option.map_some, b, List.length_drop]
+    congr 3; omega
+  · obtain ⟨a, b⟩ := h2 (by omega)
+    rw [a]
+    simp only [Option.map_none]
+    rw [if_neg]
+    rw [List.length_take]
+    by_cases h : len ≤ s.length + 1
+    · have := spec_words_take (n * k) len (s.length + 1) s h
+      have e := congrArg List.length this
+      rw [List.length_take] at e
+      omega
+    · have := spec_words_length (n * k) (s.length + 1) s
+      have h1 : (Spec.Random.words (n * k) (s.length + 1) s).length * 1 ≤
+          (Spec.Random.words (n * k) (s.length + 1) s).length * (n * k) := Nat.mul_le_mul_left _ hnk
+      omega
+
+
+/-- rand's `gen_range` forwarders add nothing: the assertion they make is the one the sampler makes -/
+theorem genRange_eq (signed dbg : Bool) (w n low high : Nat) (s : Stream) :
+    genRange signed dbg w n low high s = sampleSingle signed dbg w n low high s := by
+  unfold genRange
+  rcases lt_cases signed (M w n) low high with h | h
+  · simp [h]
+  · simp [h, sampleSingle_panic h]
+theorem genRangeInclusive_eq (signed dbg : Bool) (w n low high : Nat) (s : Stream) :
+    genRangeInclusive signed dbg w n low high s = sampleSingleInclusive signed dbg w n low high s := by
+  unfold genRangeInclusive
+  rcases le_cases signed (M w n) low high with h | h
+  · simp [h]
+  · simp [h, sampleSingleInclusive_panic h]
 
 end Bnum.Rand
